@@ -554,6 +554,10 @@ class Gen:
         """damage records of the store right before a restart (C16)"""
         r = self.r
         keys = [k for k in self.out1] + [e[0] for e in self.out2]
+        # the receive side: markers of exactly-once deliveries in progress, and the client identifier record
+        keys += [m | 0x10000 for m in sorted(self.markers)]
+        if r.random() < 0.15:
+            keys.append(0)
         n = r.choice([1, 1, 2])
         for _ in range(n):
             kind = r.choice(["alter", "alter", "trunc", "rm", "stray"])
